@@ -318,6 +318,25 @@ class Result:
         os.makedirs(os.path.join(OUTROOT, "evidence"), exist_ok=True)
         os.makedirs(os.path.join(OUTROOT, "replays"), exist_ok=True)
         wall = time.time() - self.t0
+        # extent of the recorded findings: known_extent.json (committed, written only by `YV_PIN=1 bin/yv check ...`) holds, per
+        # property/tier/seed, how many replayed cases each finding explained on the unchanged tree.  The cases are a deterministic
+        # function of tier and seed, so more cases than recorded means that inputs fail which the finding does not list.
+        ext_path = os.path.join(VERIF, "known_extent.json")
+        try:
+            extent = json.load(open(ext_path))
+        except Exception:
+            extent = {}
+        pin_key = "%s|%s|%d" % (self.prop, self.tier, self.seed)
+        if os.environ.get("YV_PIN"):
+            extent[pin_key] = {k: v[0] for k, v in sorted(self.known_hits.items())}
+            with open(ext_path, "w") as f:
+                json.dump(extent, f, indent=1, sort_keys=True)
+        elif pin_key in extent:
+            for key, (cnt, text, rec) in sorted(self.known_hits.items()):
+                pinned = extent[pin_key].get(key, 0)
+                if cnt > pinned:
+                    self.violations.append(("more cases than the recorded finding %s lists: %d > %d" % (key, cnt, pinned),
+                                            {"finding": key, "met": cnt, "recorded_extent": pinned, "example": rec}))
         for key, (cnt, text, rec) in sorted(self.known_hits.items()):
             print("KNOWN-FINDING: property=%s key=%s x%d %s" % (self.prop, key, cnt, text))
         paths = []
